@@ -1581,3 +1581,41 @@ mod tests {
         );
     }
 }
+
+/// Kani harness. BOUNDED stand-in: one fixed scenario over two keys whose 32-bit hashes are symbolic (so they may
+/// collide), on the un-indexed path only; not a proof of the map for all histories. (The same scenario with the
+/// hashbrown index present does not finish in CBMC.)
+#[cfg(feature = "verif_kani")]
+mod verif_kani {
+    use super::*;
+    use crate::hashed::Hashed;
+
+    fn h(hash: u32, k: u8) -> Hashed<u8> {
+        Hashed::new_unchecked(StarlarkHashValue::new_unchecked(hash), k)
+    }
+
+    /// insert a, insert b, remove a: b moves to position 0 and is still found; a is gone.
+    fn scenario_remove_first(mut map: SmallMap<u8, u8>) {
+        let (h0, h1): (u32, u32) = (kani::any(), kani::any());
+        let (v0, v1): (u8, u8) = (kani::any(), kani::any());
+        assert!(map.insert_hashed(h(h0, 0), v0).is_none());
+        assert!(map.insert_hashed(h(h1, 1), v1).is_none());
+        assert!(map.len() == 2);
+        assert!(map.get_index_of_hashed(h(h0, 0).as_ref()) == Some(0));
+        assert!(map.get_index_of_hashed(h(h1, 1).as_ref()) == Some(1));
+        assert!(map.shift_remove_hashed(h(h0, 0).as_ref()) == Some(v0));
+        assert!(map.len() == 1);
+        assert!(map.get_index_of_hashed(h(h1, 1).as_ref()) == Some(0));
+        assert!(map.get_hashed(h(h1, 1).as_ref()) == Some(&v1));
+        assert!(map.get_index_of_hashed(h(h0, 0).as_ref()).is_none());
+        assert!(map.get_index(0) == Some((&1, &v1)));
+        kani::cover!(h0 == h1);
+        kani::cover!(h0 != h1);
+    }
+
+    #[kani::proof]
+    #[kani::unwind(6)]
+    fn c11_small_map_remove_first_no_index_bounded() {
+        scenario_remove_first(SmallMap::new());
+    }
+}
